@@ -202,11 +202,60 @@ func c17Batch(cfg c17Cfg, progs []c01Prog) {
 	}
 }
 
+// boundary corpus of the tinyfo subset (FC_VERIF_CORPUS = directory of X.fo + X.expected): the real
+// tinyfo binary -> go build -> run; stdout must be the expected text and equal that of fc's translation
+func c17Corpus(cfg c17Cfg, dir string) {
+	paths, _ := filepath.Glob(filepath.Join(dir, "*.fo"))
+	for _, p := range paths {
+		b, err := os.ReadFile(p)
+		if err != nil {
+			continue
+		}
+		want, _ := os.ReadFile(strings.TrimSuffix(p, ".fo") + ".expected")
+		src := string(b)
+		vstat("corpus")
+		fail := func(why, detail string) {
+			if len(detail) > 1500 {
+				detail = detail[:1500]
+			}
+			vViolation(map[string]any{"kind": "corpus program: " + why, "detail": detail, "file": filepath.Base(p), "program": src})
+		}
+		tgo, terr := c17Tinyfo(cfg, src)
+		if terr != "" {
+			fail("tinyfo rejected a program of its subset", terr)
+			continue
+		}
+		if berr := c17Build(cfg, tgo, ""); berr != "" {
+			fail("the Go tinyfo emitted does not compile", berr)
+			continue
+		}
+		tout, rerr := c17Run(filepath.Join(cfg.workdir, "bin", "t"))
+		if rerr != "" {
+			fail("the program tinyfo emitted fails at run time", rerr)
+			continue
+		}
+		if tout != string(want) {
+			fail("stdout of tinyfo's translation differs from the expected output", "expected:\n"+string(want)+"\nobserved:\n"+tout)
+			continue
+		}
+		if fgo, ferr := vTranspile(src); ferr == "" {
+			if berr := c17Build(cfg, "", fgo); berr == "" {
+				if fout, e := c17Run(filepath.Join(cfg.workdir, "bin", "f")); e == "" && fout != tout {
+					fail("tinyfo's translation and fc's translation print different output", "fc:\n"+fout+"\ntinyfo:\n"+tout)
+				}
+			}
+		}
+	}
+}
+
 func vC17(seed int64, count int, extra []string) {
 	gTiny = true
 	cfg := c17Cfg{workdir: extra[0], tinyfo: extra[2]}
 	batch, _ := strconv.Atoi(extra[1])
 	layouts := len(extra) > 3 && extra[3] == "layouts"
+	if dir := os.Getenv("FC_VERIF_CORPUS"); dir != "" {
+		c17Corpus(cfg, dir)
+	}
 	var progs []c01Prog
 	for i := 0; i < count; i++ {
 		g := newGen(seed*1000003 + int64(i))
